@@ -18,7 +18,7 @@ LEVEL_TEXT = ("HlsSession.tla models sessions (secret -> path, IP, created by an
               "TLC evaluates the statement on the observed trace")
 LEVEL_NOTE = ("bounded: 2 sessions per behaviour, 2 paths + 1 without stream, 6 client IPs incl. textual-prefix pairs, IPv4 and IPv6 (quick tier: sessions opened from 4 of them, requests from all 6) (X-Forwarded-For through the "
               "trusted proxy), 6 credentials; probes per step are sampled; idle expiry is forced by ageing the session's last-request time "
-              "in-package and waiting for the muxer's real cleanup; hlsAlwaysRemux only; both tiers replay a subset of the edge-covering walks (quick 100, thorough 1000)")
+              "in-package and waiting for the muxer's real cleanup; server configurations {trusted proxy 127.0.0.1, empty trusted-proxy list with real loopback peers 127.0.0.1 / 127.0.0.2 / ::1 and forged X-Forwarded-For / X-Real-IP} x {CDN secret set, not set}; hlsAlwaysRemux only; both tiers replay a subset of the edge-covering walks (quick 100, thorough 1300)")
 TECHNIQUE = "TLA+ model (TLC): exhaustive bounded MC + edge-covering walks replayed on the real code + trace validation"
 
 PKG = "./internal/servers/hls/"
@@ -26,6 +26,7 @@ CFG = """SPECIFICATION %s
 CONSTANTS
   MaxS = %d
   CDNConfigured = %s
+  TrustedProxy = %s
   WideIPs = %s
   ExpireAny = %s
 INVARIANTS ServedOnlyToSessions SessionsAdmitted TypeOK
@@ -34,26 +35,44 @@ CHECK_DEADLOCK FALSE
 PATHS = ["cam1", "other", "ghost"]
 IPS = ["10.0.0.1", "10.0.0.12", "10.0.0.123", "10.0.1.5", "2001:db8::1", "2001:db8::12"]
 KINDS = ["playlist", "segment", "part"]
+PEERS = ["127.0.0.1", "127.0.0.2", "::1"]
+CONFS = [("TRUE", "TRUE"), ("TRUE", "FALSE"), ("FALSE", "TRUE"), ("FALSE", "FALSE")]   # (trusted proxy, CDN secret)
 AUTHS = ["none", "basic", "cdn", "wrong", "bare", "barespace", "lower", "lowercdn"]
 
 
-def _probes(rnd, nrand, step_no):
+def _forge(rnd, ip):
+    """no trusted proxy: a forged forwarding header naming another address (or none)"""
+    fwd = rnd.choice([x for x in PEERS if x != ip] + ["10.0.0.1", ""])
+    return {"fwd": fwd, "hdr": rnd.choice(["xff", "xreal", "both"]) if fwd else ""}
+
+
+def _probes(rnd, nrand, step_no, trusted, quick):
     """requests sent after a step: the neighbourhood of every session slot, the CDN forms, random ones"""
     out = []
     kind = KINDS[step_no % 3]
+    ips = IPS if trusted else PEERS
     for sid in (1, 2):
         for p in ("cam1", "other"):
-            for ip in IPS:
-                out.append({"kind": kind, "path": p, "sid": sid, "place": rnd.choice(["cookie", "query"]), "ip": ip, "auth": "none"})
+            for ip in ips:
+                base = {"kind": kind, "path": p, "sid": sid, "place": rnd.choice(["cookie", "query"]), "ip": ip, "auth": "none"}
+                if trusted:
+                    out.append(base)
+                    continue
+                # from every peer, claiming to be every other peer (and with no claim at all)
+                for fwd in [x for x in PEERS if x != ip] + [""]:
+                    out.append(dict(base, fwd=fwd, hdr=rnd.choice(["xff", "xreal", "both"]) if fwd else ""))
     # every Authorization form on every path (with no / a random session secret)
-    for p in PATHS:
+    for p in PATHS[:2] if quick else PATHS:
         for a in AUTHS[1:]:
             out.append({"kind": rnd.choice(KINDS), "path": p, "sid": rnd.choice([0, 0, 1, 2, 3]), "place": "query",
-                        "ip": rnd.choice(IPS), "auth": a})
+                        "ip": rnd.choice(ips), "auth": a})
     for _ in range(nrand):
         out.append({"kind": rnd.choice(KINDS), "path": rnd.choice(PATHS), "sid": rnd.choice([0, 1, 2, 3]),
-                    "place": rnd.choice(["cookie", "query"]), "ip": rnd.choice(IPS),
+                    "place": rnd.choice(["cookie", "query"]), "ip": rnd.choice(ips),
                     "auth": rnd.choice(["none", "none"] + AUTHS)})
+    for x in out:
+        if "fwd" not in x:
+            x.update({"fwd": "", "hdr": ""} if trusted else _forge(rnd, x["ip"]))
     rnd.shuffle(out)
     return out
 
@@ -73,6 +92,8 @@ def _step(lab):
 
 def run(ctx):
     d = ctx.specdir()
+    # quick tier: the empty trusted-proxy list is exercised with a CDN secret set only (the two dimensions are independent)
+    confs = CONFS if ctx.thorough else CONFS[:3]
     t0 = time.time()
     phases = {}
     # compile the harness package while TLC runs
@@ -84,25 +105,27 @@ def run(ctx):
         maxs = ctx.pick(2, 3)
         wide = ctx.pick("FALSE", "TRUE")
         jobs = {}
-        for cdn in ("TRUE", "FALSE"):
-            cfg = "HlsSession_mc_%s.cfg" % cdn
+        for (tp, cdn) in confs:
+            key = tp + "_" + cdn
+            dot = ctx.path("hls_%s.dot" % key)
+            cfg = "HlsSession_mc_%s.cfg" % key
             with open(d + "/" + cfg, "w") as fh:
                 # the invariant quantifies over every request in every state: the state-changing actions suffice
-                fh.write(CFG % ("SpecCtl", maxs, cdn, wide, "TRUE"))
-            jobs["mc" + cdn] = (cfg, [])
+                fh.write(CFG % ("SpecCtl", maxs, cdn, tp, wide, "TRUE"))
+            jobs["mc" + key] = (cfg, [])
             if not ctx.thorough:
                 # quick tier: the model-checking run itself dumps the graph the walks are taken from (same bound;
                 # Expire(i) and Kick(i) have the same effect on the state, so leaving Expire(2) out of the
                 # graph does not change the reachable states the invariants are checked on)
                 with open(d + "/" + cfg, "w") as fh:
-                    fh.write(CFG % ("SpecCtl", maxs, cdn, wide, "FALSE"))
-                jobs["mc" + cdn] = (cfg, ["-dump", "dot,actionlabels", ctx.path("hls_%s.dot" % cdn)])
+                    fh.write(CFG % ("SpecCtl", maxs, cdn, tp, wide, "FALSE"))
+                jobs["mc" + key] = (cfg, ["-dump", "dot,actionlabels", dot])
                 continue
-            cfg = "HlsSession_gen_%s.cfg" % cdn
+            cfg = "HlsSession_gen_%s.cfg" % key
             with open(d + "/" + cfg, "w") as fh:
-                fh.write((CFG % ("SpecCtl", 2, cdn, wide, ctx.pick("FALSE", "TRUE"))).replace(
+                fh.write((CFG % ("SpecCtl", 2, cdn, tp, wide, "TRUE")).replace(
                     "INVARIANTS ServedOnlyToSessions SessionsAdmitted TypeOK", "INVARIANT TypeOK"))
-            jobs["gen" + cdn] = (cfg, ["-dump", "dot,actionlabels", ctx.path("hls_%s.dot" % cdn)])
+            jobs["gen" + key] = (cfg, ["-dump", "dot,actionlabels", dot])
         results, errors = {}, []
 
         def tlc_job(key):
@@ -117,15 +140,15 @@ def run(ctx):
             th.join()
         if errors:
             raise errors[0]
-        for cdn in ("TRUE", "FALSE"):
-            r = results["mc" + cdn]
+        for (tp, cdn) in confs:
+            r = results["mc%s_%s" % (tp, cdn)]
             ctx.add("states", r.distinct)
             ctx.add("transitions", r.generated)
             ctx.cov.setdefault("mc_runs", []).append(
-                {"module": "HlsSession", "cfg": jobs["mc" + cdn][0], "distinct": r.distinct, "generated": r.generated,
+                {"module": "HlsSession", "cfg": jobs["mc%s_%s" % (tp, cdn)][0], "distinct": r.distinct, "generated": r.generated,
                  "depth": r.depth, "wall_s": round(r.wall, 2)})
-        ru = results["mcTRUE"]
-        graphs = {cdn: walk.load(ctx.path("hls_%s.dot" % cdn)) for cdn in ("TRUE", "FALSE")}
+        ru = results["mcTRUE_TRUE"]
+        graphs = {(tp, cdn): walk.load(ctx.path("hls_%s_%s.dot" % (tp, cdn))) for (tp, cdn) in confs}
     finally:
         warm.join()
     users = ru.tagged("USERS")
@@ -137,9 +160,10 @@ def run(ctx):
     rnd = random.Random(int(ctx.seed) * 104729 + 43)
     walks, edges_total, edges_covered, n_expire, n_cut, n_steps = [], 0, 0, 0, 0, 0
     expire_budget = ctx.pick(24, 600)
-    for cdn in ("TRUE", "FALSE"):
-        ws, covered, total = walk.edge_cover(graphs[cdn], maxlen=ctx.pick(14, 16), seed=int(ctx.seed),
-                                             limit=ctx.pick(50, 500))
+    for (tp, cdn) in confs:
+        trusted = tp == "TRUE"
+        ws, covered, total = walk.edge_cover(graphs[(tp, cdn)], maxlen=ctx.pick(14, 16), seed=int(ctx.seed),
+                                             limit=ctx.pick(35, 500) if trusted else ctx.pick(15, 150))
         edges_total += total
         edges_covered += covered
         for w in ws:
@@ -156,9 +180,11 @@ def run(ctx):
             n_expire += ne
             n_steps += len(steps)
             for i, s in enumerate(steps):
-                s["probes"] = _probes(rnd, ctx.pick(3, 12), i)
+                s["probes"] = _probes(rnd, ctx.pick(3, 12), i, trusted, not ctx.thorough)
+                if "ip" in s:
+                    s.update({"fwd": "", "hdr": ""} if trusted else _forge(rnd, s["ip"]))
             wid = len(walks) + 1
-            walks.append({"walk": wid, "cdnConf": cdn == "TRUE", "variant": ["lowLatency", "mpegts", "fmp4"][wid % 3],
+            walks.append({"walk": wid, "trusted": trusted, "cdnConf": cdn == "TRUE", "variant": ["lowLatency", "mpegts", "fmp4"][wid % 3],
                           "cookie": wid % 2 == 0, "steps": steps})
     if len(walks) < 40:
         raise vf.Infra("only %d walks generated" % len(walks))
@@ -176,7 +202,7 @@ def run(ctx):
     t0 = time.time()
 
     with open(d + "/TraceHlsSession.cfg", "w") as fh:
-        fh.write("SPECIFICATION TraceSpec\nCONSTANTS\n  MaxS = 2\n  CDNConfigured = TRUE\n  WideIPs = TRUE\n  ExpireAny = TRUE\n"
+        fh.write("SPECIFICATION TraceSpec\nCONSTANTS\n  MaxS = 2\n  CDNConfigured = TRUE\n  TrustedProxy = TRUE\n  WideIPs = TRUE\n  ExpireAny = TRUE\n"
                  "INVARIANT Verdicts\nPOSTCONDITION Accepted\nCHECK_DEADLOCK FALSE\n")
     nreq = nserved = nopen = nopen_ok = drift = 0
     chunk = 400
@@ -190,11 +216,15 @@ def run(ctx):
                 e = r["events"][k - 1]
                 hist = [x for x in r["events"][:k - 1] if x["op"] != "req"]
                 rec = {"request": {x: e[x] for x in ("kind", "path", "place", "ip", "auth")},
-                       "secret_of": _secret_of(e, hist), "cdnConf": r["cdnConf"], "status": e["status"]}
+                       "secret_of": _secret_of(e, hist), "cdnConf": r["cdnConf"], "trustedProxies": r["trusted"],
+                       "forged": e.get("hdr", ""), "status": e["status"]}
+                who = e["ip"] if r["trusted"] else "TCP peer %s%s" % (
+                    e["ip"], " with forged %s naming %s" % (e["hdr"], e["fwd"]) if e.get("fwd") else "")
                 ctx.violation(rec, "a %s of path %s was served (status %d) to a request from %s carrying %s (%s) and Authorization=%s; "
-                                   "CDN secret configured=%s, variant=%s; history: %s" % (
-                                       e["kind"], e["path"], e["status"], e["ip"], rec["secret_of"], e["place"], e["auth"],
-                                       r["cdnConf"], r["variant"], json.dumps(hist)[:1200]))
+                                   "hlsTrustedProxies=%s, CDN secret configured=%s, variant=%s; history: %s" % (
+                                       e["kind"], e["path"], e["status"], who, rec["secret_of"], e["place"], e["auth"],
+                                       "[127.0.0.1]" if r["trusted"] else "[] (empty)", r["cdnConf"], r["variant"],
+                                       json.dumps(hist)[:1200]))
         for x in {b["l"]: b for b in tv.tagged("DRIFT")}.values():
             drift += len(x["events"])
             if drift <= 3 * len(x["events"]):
